@@ -35,6 +35,6 @@ let lst = function L l -> l | _ -> failwith "list expected"
 let zarg x = coqz_of_string (atom x)
 let zout z = A (string_of_coqz z)
 
-(* command registry: every <x>run.ml registers its handlers at load time; modelrun.ml is the main loop *)
-let handlers : (string, Sexp.t -> Sexp.t) Hashtbl.t = Hashtbl.create 16
-let register name f = Hashtbl.replace handlers name f
+(* command registry (shared by every extraction unit): see reg.ml *)
+let handlers = Reg.handlers
+let register = Reg.register
